@@ -30,9 +30,54 @@ func (ex *Exec) wrap(v *smt.Term, t types.Type, force bool) *smt.Term {
 	return v
 }
 
+// divFact states the defining equation of integer division for a divisor that is not a literal:
+// x = y*(x div y) + (x mod y) and 0 <= x mod y < |y| (for y != 0). The solvers know this, but they make little
+// use of it when y is a variable; as an explicit product it lets the nonlinear engine work.
+func (ex *Exec) divFact(x, y *smt.Term) {
+	c := ex.W.C
+	if _, lit := y.IntVal(); lit || x.Sort != smt.Int || c.HasVar(x) || c.HasVar(y) {
+		return
+	}
+	if ex.divFacts == nil {
+		ex.divFacts = map[[2]int]bool{}
+	}
+	k := [2]int{x.ID, y.ID}
+	if ex.divFacts[k] {
+		return
+	}
+	ex.divFacts[k] = true
+	zero := c.IntLit(0)
+	q, r := c.IDiv(x, y), c.IMod(x, y)
+	absy := c.Ite(c.Ge(y, zero), y, c.Neg(y))
+	ex.assume(c.Implies(c.Not(c.Eq(y, zero)), c.And(c.Eq(x, c.Add(c.Mul(y, q), r)), c.Le(zero, r), c.Lt(r, absy))))
+}
+
 func (ex *Exec) goDiv(a, b *smt.Term, nonneg bool) *smt.Term {
 	c := ex.W.C
 	zero := c.IntLit(0)
+	if bv, lit := b.IntVal(); lit && bv.Sign() > 0 && !nonneg && ex.knownNonneg(a) {
+		return c.IDiv(a, b)
+	}
+	if _, lit := b.IntVal(); !lit && a.Sort == smt.Int && !nonneg && ex.knownPos(b) {
+		// the divisor is positive on every path (an assumed fact): only the dividend's sign matters
+		if ex.knownNonneg(a) {
+			ex.divFact(a, b)
+			return c.IDiv(a, b)
+		}
+		ex.divFact(a, b)
+		ex.divFact(c.Neg(a), b)
+		return c.Ite(c.Ge(a, zero), c.IDiv(a, b), c.Neg(c.IDiv(c.Neg(a), b)))
+	}
+	if _, lit := b.IntVal(); !lit && a.Sort == smt.Int {
+		if nonneg {
+			ex.divFact(a, b)
+		} else {
+			ex.divFact(a, b)
+			ex.divFact(a, c.Neg(b))
+			ex.divFact(c.Neg(a), b)
+			ex.divFact(c.Neg(a), c.Neg(b))
+		}
+	}
 	if nonneg {
 		return c.IDiv(a, b)
 	}
@@ -47,6 +92,25 @@ func (ex *Exec) goDiv(a, b *smt.Term, nonneg bool) *smt.Term {
 func (ex *Exec) goMod(a, b *smt.Term, nonneg bool) *smt.Term {
 	c := ex.W.C
 	zero := c.IntLit(0)
+	if bv, lit := b.IntVal(); lit && bv.Sign() > 0 && !nonneg && ex.knownNonneg(a) {
+		return c.IMod(a, b)
+	}
+	if _, lit := b.IntVal(); !lit && a.Sort == smt.Int && !nonneg && ex.knownPos(b) {
+		if ex.knownNonneg(a) {
+			ex.divFact(a, b)
+			return c.IMod(a, b)
+		}
+		ex.divFact(a, b)
+		ex.divFact(c.Neg(a), b)
+		return c.Ite(c.Ge(a, zero), c.IMod(a, b), c.Neg(c.IMod(c.Neg(a), b)))
+	}
+	if _, lit := b.IntVal(); !lit && a.Sort == smt.Int {
+		absb := c.Ite(c.Gt(b, zero), b, c.Neg(b))
+		ex.divFact(a, absb)
+		if !nonneg {
+			ex.divFact(c.Neg(a), absb)
+		}
+	}
 	if nonneg {
 		return c.IMod(a, b)
 	}
@@ -97,6 +161,24 @@ func (ex *Exec) bitop(op string, a, b *smt.Term, t types.Type) (*smt.Term, bool)
 	bvv, bConst := b.IntVal()
 	_, hi, uns, _ := intRange(t)
 	nonnegConst := func(x *big.Int) bool { return x.Sign() >= 0 }
+	if bw, ok := ex.W.BridgeWidth(t); ok && (op == "&" || op == "|" || op == "^" || op == "&^") {
+		// `bvtype`: an unsigned type of exactly this width, so the bridge is exact for every value
+		bs := smt.BVSort(bw)
+		i2b := fmt.Sprintf("(_ int2bv %d)", bw)
+		x, y := c.App(i2b, bs, a), c.App(i2b, bs, b)
+		var r *smt.Term
+		switch op {
+		case "&":
+			r = c.App("bvand", bs, x, y)
+		case "|":
+			r = c.App("bvor", bs, x, y)
+		case "^":
+			r = c.App("bvxor", bs, x, y)
+		case "&^":
+			r = c.App("bvand", bs, x, c.App("bvnot", bs, y))
+		}
+		return c.App("bv2nat", smt.Int, r), true
+	}
 	// normalise negative constants of signed types for masks like ^0x10 : handle via complement
 	switch op {
 	case "&":
